@@ -148,6 +148,10 @@ pub struct UdpOp {
     pub size: u32,
     #[serde(default)]
     pub how: UdpHow,
+    /// the sending socket is bound to the loopback address instead of the wildcard (with `lo == false`
+    /// the datagram still has to cross the wire: only the oversize clause is judged then)
+    #[serde(default)]
+    pub bind_lo: bool,
 }
 
 /// Who moves the packets.
@@ -727,7 +731,12 @@ async fn writer_body(sh: &Rc<Shared>, side: usize, mut w: OwnedWriteHalf) {
 
 pub(super) async fn udp_main(sh: Rc<Shared>, ops: Vec<UdpOp>, peer4: Ipv4Addr, peer6: Ipv6Addr) {
     for (i, op) in ops.iter().enumerate() {
-        let bind: SocketAddr = if op.v6 { (Ipv6Addr::UNSPECIFIED, 0).into() } else { (Ipv4Addr::UNSPECIFIED, 0).into() };
+        let bind: SocketAddr = match (op.v6, op.bind_lo) {
+            (true, false) => (Ipv6Addr::UNSPECIFIED, 0).into(),
+            (false, false) => (Ipv4Addr::UNSPECIFIED, 0).into(),
+            (true, true) => (Ipv6Addr::LOCALHOST, 0).into(),
+            (false, true) => (Ipv4Addr::LOCALHOST, 0).into(),
+        };
         let sock = match UdpSocket::bind(bind).await {
             Ok(s) => s,
             Err(e) => {
@@ -745,8 +754,12 @@ pub(super) async fn udp_main(sh: Rc<Shared>, ops: Vec<UdpOp>, peer4: Ipv4Addr, p
         let limit = mtu.saturating_sub(if op.v6 { IPV6_HDR } else { IPV4_HDR }).saturating_sub(UDP_HDR);
         let payload = vec![0x5au8; op.size as usize];
         let connected = matches!(op.how, UdpHow::ConnSend | UdpHow::ConnTrySend);
+        let off_host_from_lo = op.bind_lo && !op.lo;
         if connected {
             if let Err(e) = sock.connect(dst).await {
+                if off_host_from_lo {
+                    continue; // where the text is silent nothing is judged
+                }
                 sh.obs.borrow_mut().harness_error = Some(format!("udp connect {dst} failed: {e}"));
                 return;
             }
@@ -762,6 +775,18 @@ pub(super) async fn udp_main(sh: Rc<Shared>, ops: Vec<UdpOp>, peer4: Ipv4Addr, p
         o.log.tag(call);
         o.log.tag(if r.is_ok() { "udp-ok" } else { "udp-err" });
         let path = if connected { "connected" } else { "unconnected" };
+        if off_host_from_lo {
+            // a socket bound to the loopback address sending to another host: whatever else happens, a
+            // payload the wire's MTU cannot carry must not be accepted
+            if r.is_ok() && op.size > limit {
+                o.fail16("UdpOversizeSent", format!("{call} from a socket bound to the loopback address to {dst} with payload {} > {limit} (mtu {mtu} of the interface it leaves from) returned Ok", op.size));
+            } else if op.size > limit {
+                o.probes.inc("udp_oversize_from_loopback_bound_socket_rejected");
+            }
+            drop(o);
+            drop(sock);
+            continue;
+        }
         match (&r, op.size <= limit) {
             (Ok(n), true) => {
                 o.probes.inc(&format!("udp_{path}_send_within_mtu_ok"));
@@ -1035,7 +1060,8 @@ impl Drive {
 
 /// C16: payload sizes of a packet leaving a host against the MTU of the interface it leaves from.
 pub(super) fn check_sizes(wire: &Wire, p: &Packet, info: &PktInfo, o: &mut Obs) {
-    let mtu = wire.mtu_of(p.src);
+    // (a packet with a loopback source address that heads for another host leaves through the wire interface)
+    let mtu = if p.src.is_loopback() && !p.dst.is_loopback() { wire.mtu_of(p.dst) } else { wire.mtu_of(p.src) };
     match &p.payload {
         Transport::Udp(d) => {
             let limit = mtu.saturating_sub(ip_hdr(p.src)).saturating_sub(UDP_HDR);
